@@ -60,14 +60,29 @@ def gen(rng, tier):
         cache = rng.choice([1, 2, 3, 4, 5, 8, 16, 64])
         rcv = rng.choice([0, 1, 5, 10, 10, 10])
         snd = rng.choice([0, 5, 10, 10, 10])
-        steps, nadded = [], 0
+        steps, nadded, cur = [], 0, cache
         for _ in range(rng.randrange(3, 60)):
             s = rstep(rng, nadded)
             if s == "a":
                 nadded += 1
+            if rng.random() < 0.04:
+                # the cache may be enlarged while in use (shrinking is refused)
+                new = rng.choice([cur, cur + 1, cur + 2, 2 * cur + 1, max(0, cur - 1)])
+                steps.append("g:%d" % new)
+                cur = max(cur, new)
             steps.append(s)
         steps += ["run"] * rng.randrange(0, 5)
         yield "async %d %d %d %s" % (cache, rcv, snd, ",".join(steps))
+    # growing the cache with 0..c requests outstanding, then filling it up and answering everything
+    for cache in (1, 2, 3, 4):
+        for fill in range(cache + 1):
+            for new in (cache, cache + 1, cache + 5, max(0, cache - 1)):
+                eff = max(cache, new)
+                steps = ["a"] * fill + ["run", "g:%d" % new] + ["a"] * (eff - fill + 1)
+                order = list(range(eff))
+                rng.shuffle(order)
+                steps += ["run"] + ["srv:ok:%d" % k for k in order] + ["run"] * (eff + 2)
+                yield "async %d 10 10 %s" % (cache, ",".join(steps))
     # wrap-around of the slot counter / id generations: many add-reply-run cycles on small caches
     for cache in (1, 2, 3):
         steps = []
@@ -81,7 +96,7 @@ CONFIG.pid = "C13"
 CONFIG.props_module = "KsiVerif.Props.C13"
 CONFIG.required_theorems = ["no_request_returned_twice", "returned_fresh", "reply_matched_by_full_id", "foreign_reply_ignored",
                              "add_cache_full", "add_accepts_into_free_slot", "recv_timeout_only_when_elapsed",
-                             "response_processing_keeps_cache", "J_add", "J_run"]
+                             "response_processing_keeps_cache", "J_add", "J_run", "J_grow", "grow_keeps_slots"]
 CONFIG.engines = [Engine("c13", ["exec_c13.c"], "drv_c13", gen, wraps=["time"])]
 CONFIG.rule = ("the real signing async service (net_async.c) over the real async TCP client on a scripted socket and clock; the scripted "
                "server builds v2 PDUs with an independent TLV writer + OpenSSL HMAC. Schedules over {add, run, valid / status / stale-generation / "
